@@ -1083,6 +1083,38 @@ func (g *c11Gen) caseTypesRestart() {
 	g.observeAll()
 }
 
+// caseSearchMaps: jobs whose statements carry multi-key maps (a render template, a has-condition
+// with a map value, several aggregations) must be found by Search like any other — every time:
+// the per-statement checksum has to be a function of the statement, not of a map iteration order.
+func (g *c11Gen) caseSearchMaps() {
+	r := g.r.Rng
+	g.reset(c11Named("A", c01Graph(r, 1)), c11Named("B", c01Graph(r, 2)))
+	tmpl := map[string]interface{}{"a": "$.name", "b": "$.x", "c": "$._gid", "d": "$._label", "e": "k", "f": "$.nested", "g": []interface{}{"$.x", "lit"}}
+	val := map[string]interface{}{"k": 1.0, "deep": map[string]interface{}{"z": "p", "y": "q"}, "m": 2.0, "n": "s", "o": true}
+	qs := [][]c11Stmt{
+		{{"v": sl()}, {"hasLabel": sl("A", "B", "C")}, {"render": tmpl}},
+		{{"v": sl()}, {"has": c02C("nested", "EQ", val)}, {"out": sl()}},
+		{{"e": sl()}, {"as": "a"}, {"out": sl()}, {"render": map[string]interface{}{"p": "$a._gid", "q": "$._gid", "r": "$a.x", "s": "$.name", "t": "$a._label"}}},
+	}
+	for _, q := range qs {
+		if g.submit("A", q) < 0 {
+			continue
+		}
+		g.r.Count("search-maps:job")
+	}
+	for i := 0; i < 4; i++ {
+		for _, q := range qs {
+			g.search("A", q)
+			g.search("A", append(append([]c11Stmt{}, q...), c11Stmt{"limit": 2}))
+		}
+	}
+	g.do(map[string]interface{}{"op": "restart"})
+	for _, q := range qs {
+		g.search("A", q)
+		g.search("B", q)
+	}
+}
+
 func c11GenMain(r *Run) {
 	base, _ := filepath.Abs(ScratchDir("c11"))
 	defer os.RemoveAll(base)
@@ -1106,6 +1138,7 @@ func c11GenMain(r *Run) {
 
 	g.caseMarkTypes()
 	g.caseTypesRestart()
+	g.caseSearchMaps()
 
 	// 2. every split point of generated traversals, every result type
 	nsplit := 6
